@@ -117,6 +117,16 @@ def check(repo: Repo) -> Result:
         res.check(owner.get(legacy, "h") == "h", f"name:{legacy}", LUT, f"{legacy} collides with a constant row", rid=r4)
 
     add_constants_shape(repo, res)
+    from rules import c03
+    from rules.common import share
+
+    r6 = res.rule("C15-R6", "constants built for a registry are converted into its unit system by the EM route: within a system that has a current unit no Gaussian factor is applied (charge constants of the imperial / galactic / planck systems)", floor=2)
+
+    def _route(t_):
+        t_.rule("C03-R4", "x")
+        c03.em_route(repo, t_, "C03-R4")
+
+    share(res, r6, "C03", _route, ["C03-R4"], want=lambda k: k.startswith("em-route:"), min_keys=2)
     return res
 
 
@@ -196,6 +206,8 @@ def add_constants_shape(repo, res):
     res.check(ok, "export", "unyt/physical_constants.py", "unyt.physical_constants is populated by add_constants(globals(), registry=default registry)", rid=r5)
 
 
+UO = "unyt/unit_object.py"
+
 MUTANTS = [
     Mutant("hbar-factor", RAT, None, "hbar_mks = 0.5 * planck_mks / np.pi", "hbar_mks = planck_mks / np.pi", ("C15-R1",)),
     Mutant("eps0-slip", RAT, None, "eps_0 = 1.0 / (speed_of_light_m_per_s**2 * mu_0)", "eps_0 = 1.0 / (speed_of_light_m_per_s * mu_0)", ("C15-R1", "C15-R3")),
@@ -211,4 +223,5 @@ MUTANTS = [
     Mutant("wrong-registry", US, "add_constants", "quan = unyt_quantity(value, unit_name, registry=registry)", "quan = unyt_quantity(value, unit_name)", ("C15-R5",)),
     Mutant("swallow-all", US, "add_constants", "            except UnitsNotReducible:\n                pass", "            except Exception:\n                pass", ("C15-R5",)),
     Mutant("twin-spelling", RAT, None, "hbar_mks = 0.5 * planck_mks / np.pi", "hbar_mks = planck_mks / (2.0 * np.pi)", (), benign=True),
+    Mutant("em-own-family-scaled", UO, "_check_em_conversion", "em_map = (unit_system[unit.dimensions], unit, 1.0)", "em_map = (unit_system[unit.dimensions], unit, em_info[2])", ("C15-R6",)),
 ]
